@@ -24,9 +24,21 @@ Clause labels -> sentence of the property:
                                error when the value is used ... never silently dropped or
                                resolved to something else"
   placeholder_raises_at_finalize  "... and at finalize"
+
+Late registration (static mode, cases with a 'late' entry): the text holds an `import` line
+whose module registers the configurable L (`lm.late`) when it is imported -- a module file
+written to a tempfile directory on sys.path under a fresh name for every parse, so that the
+import really executes -- and targets L both before and after that line.  By the property a
+statement is deleted iff its target is unknown when the statement is read: the bindings and
+blocks of L above the import are deleted (or are an error when not covered), those below it
+are applied (`known_always_applied`).  L is referenced (`@late`) only below the import.
 """
+import importlib
 import logging
+import os
+import shutil
 import sys
+import tempfile
 import types
 
 import gin
@@ -38,10 +50,18 @@ BOUNDS = ('config texts of <= 6 statements (bindings, macros, 2-member blocks, i
           'list holding a reference; skip_unknown in {False, True, list, tuple, set} with every '
           'subset of the unknown names (+ an unrelated name); static registration, and dynamic '
           'registration with 2 import spellings x {nothing, f, g, both} registered by an '
-          'earlier parse; sampled')
+          'earlier parse; sampled.  Plus, static only: texts with one import line whose module '
+          'registers a third configurable (2 parameters, 2 selector spellings, import with / '
+          'without alias) on import, that configurable being targeted by 1-2 flat bindings or '
+          'blocks before and 1-3 after the import among <= 4 other statements: 11 fixed texts '
+          'x 6 skip_unknown values + 150 (quick) / 2500 (thorough) sampled')
 EXHAUSTIVE = {'quick': False, 'thorough': False}
 
 KNOWN = {'F': ['a', 'b', 'c'], 'G': ['x']}
+CALLABLE = dict(KNOWN, L=['p', 'q'])   # L: registered by the import line of a 'late' case
+LATE_SRC = ('import gin\n\n\n@gin.configurable(module="lm")\n'
+            'def late(p=None, q=None):\n  return ["late", p, q]\n')
+_LATE = {'dir': None, 'n': 0, 'name': None, 'made': []}
 SCOPES = ['', 's1']
 MATCH = 'no configurable matching'
 
@@ -55,7 +75,8 @@ def _names(case):
   """Symbol -> selector as written.  F, G are known; Z, Y, S are unknown in the parsed file
   (S: registered statically elsewhere but, under dynamic registration, not importable)."""
   if case['mode'] == 'static':
-    return {'F': case.get('fsel', 'f'), 'G': 'g', 'Z': 'zz', 'Y': 'm.yy', 'S': 'nn'}
+    return {'F': case.get('fsel', 'f'), 'G': 'g', 'Z': 'zz', 'Y': 'm.yy', 'S': 'nn',
+            'L': case.get('late', {}).get('sel', 'late')}
   p = case['prefix']
   return {'F': p + '.f', 'G': p + '.g', 'Z': p + '.zz', 'Y': 'yy.f', 'S': 'sf'}
 
@@ -65,6 +86,34 @@ def _header(case):
     return ''
   imp = 'import c15mod as fm' if case['prefix'] == 'fm' else 'import c15mod'
   return 'from __gin__ import dynamic_registration\n%s\n' % imp
+
+
+def _modname(m):
+  """'LATE' stands for the module written by the last `_setup` (fresh name per parse)."""
+  return _LATE['name'] if m == 'LATE' else m
+
+
+def _new_late_module():
+  if _LATE['dir'] is None:
+    _LATE['dir'] = tempfile.mkdtemp(prefix='c15late')
+    sys.path.insert(0, _LATE['dir'])
+  _LATE['n'] += 1
+  _LATE['name'] = 'c15late_%d_%d' % (os.getpid(), _LATE['n'])
+  with open(os.path.join(_LATE['dir'], _LATE['name'] + '.py'), 'w') as fh:
+    fh.write(LATE_SRC)
+  _LATE['made'].append(_LATE['name'])
+  importlib.invalidate_caches()
+
+
+def _cleanup_late():
+  for name in _LATE['made']:
+    sys.modules.pop(name, None)
+  if _LATE['dir'] is not None:
+    if _LATE['dir'] in sys.path:
+      sys.path.remove(_LATE['dir'])
+    shutil.rmtree(_LATE['dir'], ignore_errors=True)
+  _LATE.update(dir=None, name=None, made=[])
+  importlib.invalidate_caches()
 
 
 def _val(v, nm):
@@ -86,7 +135,7 @@ def _lines(st, nm):
   if k == 'block':      # ['block', scope, symbol, [[arg, value], ...]]
     return ['%s%s:' % (st[1] + '/' if st[1] else '', nm[st[2]])] + [
         '  %s = %s' % (a, _val(v, nm)) for a, v in st[3]]
-  return ['import %s' % st[1]]
+  return ['import %s%s' % (_modname(st[1]), ' as %s' % st[2] if len(st) > 2 else '')]
 
 
 def _text(case, stmts):
@@ -113,6 +162,7 @@ def _covered(sym, case, nm):
 def _expect(case):
   """-> (kept statements, error symbol or None, existing imports)."""
   nm, kept, imports = _names(case), [], []
+  known = set(KNOWN)    # grows when the import line of a 'late' case is passed
   truthy = case['skip']['form'] == 'true' or (
       case['skip']['form'] != 'false' and bool(case['skip']['names']))
   for st in case['stmts']:
@@ -123,15 +173,17 @@ def _expect(case):
         continue
       imports.append(st[1])
       kept.append(st)
+      if st[1] == 'LATE':
+        known.add('L')
       continue
     values = [st[2]] if st[0] == 'macro' else [st[4]] if st[0] == 'bind' else [v for _, v in st[3]]
     target = None if st[0] == 'macro' else st[2]
-    dropped = target is not None and target not in KNOWN and _covered(target, case, nm)
+    dropped = target is not None and target not in known and _covered(target, case, nm)
     for v in values:
       for r in _refs(v):
-        if r[1] not in KNOWN and not _covered(r[1], case, nm):
+        if r[1] not in known and not _covered(r[1], case, nm):
           return kept, r[1], imports      # (generation keeps these out of dropped statements)
-    if target is not None and target not in KNOWN and not dropped:
+    if target is not None and target not in known and not dropped:
       return kept, target, imports
     if not dropped:
       kept.append(st)
@@ -163,27 +215,27 @@ class _Eval:
       return self.value(self.macros[v[1]])
     if v[0] == 'list':
       return [self.value(x) for x in v[1]]
-    if v[1] not in KNOWN:
+    if v[1] not in CALLABLE:
       self.hit.append(self.nm[v[1]])    # a placeholder is reached: the call must fail
       return None
-    return self.call('', v[1], top=False)      # G only has unscoped bindings
+    return self.call('', v[1], top=False)      # G (and L when referenced): unscoped bindings only
 
   def call(self, scope, sym, top=True):
     if top:
       self.hit = []
     out = {}
-    for p in KNOWN[sym]:
+    for p in CALLABLE[sym]:
       v = None
       for s in ([''] if not scope else ['', scope]):
         v = self.store.get((s, sym, p), v)
       out[p] = None if v is None else self.value(v)
     if top and self.hit:
       raise _Unknown(' '.join(sorted(set(self.hit))))
-    return out if sym == 'F' else ['g', out['x']]
+    return out if sym == 'F' else ['g', out['x']] if sym == 'G' else ['late', out['p'], out['q']]
 
   def holds_unknown(self):
     vals = list(self.store.values()) + list(self.macros.values())
-    return sorted(set(self.nm[r[1]] for v in vals for r in _refs(v) if r[1] not in KNOWN))
+    return sorted(set(self.nm[r[1]] for v in vals for r in _refs(v) if r[1] not in CALLABLE))
 
 
 # ---- real gin ----------------------------------------------------------------
@@ -199,6 +251,10 @@ def _setup(case):
   if case['mode'] == 'static':
     gin.external_configurable(f, name='f', module='m')
     gin.external_configurable(g, name='g', module='m')
+    if 'late' in case:    # a fresh module per parse; L is reached through it once imported
+      _new_late_module()
+      name = _LATE['name']
+      return {'F': f, 'G': g, 'L': lambda: sys.modules[name].late()}
     return {'F': f, 'G': g}
   mod = types.ModuleType('c15mod')
   f.__module__ = g.__module__ = 'c15mod'
@@ -226,7 +282,7 @@ def _observe(fns):
   for s in SCOPES:
     for sym, fn in fns.items():
       try:
-        wrapper = gin.get_configurable(fn)
+        wrapper = fn if sym == 'L' else gin.get_configurable(fn)
       except ValueError:      # never registered: nothing can be bound to it
         wrapper = fn
       try:
@@ -273,12 +329,14 @@ def check(case):
   finally:
     logging.disable(logging.NOTSET)
     sys.modules.pop('c15mod', None)
+    _cleanup_late()
 
 
 def _check(case):
   fails, nm = [], _names(case)
   kept, error, imports = _expect(case)
-  sig = 'mode=%s skip=%s' % (case['mode'], case['skip']['form'])
+  sig = 'mode=%s skip=%s%s' % (case['mode'], case['skip']['form'],
+                               ' late_registering_import' if 'late' in case else '')
   if case['mode'] == 'dynamic':   # the kind of input, not the particular text
     used = _mentioned(case)
     sig = 'mode=dynamic skip=%s unregistered_importable=%s registered_unimportable=%s' % (
@@ -312,13 +370,16 @@ def _check(case):
       clause = 'placeholder_raises_on_use'
     elif isinstance(g, str):    # a reference the model resolves was turned into a placeholder
       clause = 'equals_text_minus_unknown'
-    elif isinstance(w, dict) and any(w[p] is not None and g[p] is None for p in w):
+    elif (isinstance(w, dict) and any(w[p] is not None and g[p] is None for p in w)) or (
+        isinstance(w, list) and isinstance(g, list) and len(w) == len(g) and
+        any(a is not None and b is None for a, b in zip(w, g))):   # a binding did not arrive
       clause = 'known_always_applied'
     else:
       clause = 'equals_text_minus_unknown'
     fails.append(_fail(clause, {key: w}, {key: g}, sig))
     break
   got_imports = [m for m in res[1] if not m.startswith('__gin__') and m != 'c15mod']
+  imports = [_modname(m) for m in imports]   # the module name this parse saw
   if got_imports != imports:
     fails.append(_fail('equals_text_minus_unknown', imports, got_imports, sig + ' imports'))
   holds = ev.holds_unknown()
@@ -328,7 +389,7 @@ def _check(case):
         MATCH, holds), fin, sig))
   elif not holds and fin is not None and not fails:
     fails.append(_fail('equals_text_minus_unknown', 'finalize succeeds', fin, sig + ' finalize'))
-  if not fails and not any(r[1] not in KNOWN for st in kept for v in _all_values(st)
+  if not fails and not any(r[1] not in CALLABLE for st in kept for v in _all_values(st)
                            for r in _refs(v)):
     # differential: the reduced text with skip_unknown=False in a fresh gin
     harness.reset()
@@ -411,6 +472,81 @@ def _rand_case(rng, mode):
   return case
 
 
+def _late_fixed():
+  """Texts targeting L above and below the import line that registers it."""
+  i1, i2, i3, i5 = ['int', 1], ['int', 2], ['int', 3], ['int', 5]
+  imp, lref = ['import', 'LATE'], ['ref', 'L', True, '']
+  texts = [
+      [['bind', '', 'L', 'p', i1], imp, ['bind', '', 'L', 'p', i2]],
+      [['bind', '', 'L', 'p', i1], imp, ['bind', '', 'L', 'q', i2]],
+      [['block', '', 'L', [['p', i1], ['q', i1]]], imp, ['block', '', 'L', [['q', i2]]]],
+      [['bind', 's1', 'L', 'p', i1], imp, ['bind', 's1', 'L', 'p', i2], ['bind', '', 'L', 'q', i3]],
+      [['bind', '', 'L', 'p', i1], imp, ['block', 's1', 'L', [['p', i2], ['q', i3]]]],
+      [['block', 's1', 'L', [['p', i1]]], imp, ['bind', '', 'L', 'q', i2]],
+      [['bind', '', 'Z', 'q', i1], ['bind', '', 'L', 'p', i1], ['bind', '', 'F', 'a', i1], imp,
+       ['bind', '', 'Z', 'q', i2], ['bind', '', 'L', 'q', i5], ['bind', '', 'F', 'b', lref]],
+      [['bind', '', 'L', 'q', i1], ['import', 'LATE', 'zq'], ['bind', '', 'F', 'c', ['ref', 'L', False, '']],
+       ['bind', '', 'L', 'p', i3]],
+      [['bind', '', 'L', 'p', i1], ['block', '', 'L', [['q', i1]]], ['import', 'math'], imp,
+       ['import', 'c15_nope1'], ['bind', '', 'L', 'p', i2], ['bind', '', 'L', 'p', i3]],
+      [['bind', '', 'L', 'p', ['ref', 'G', True, '']], ['bind', '', 'G', 'x', i5], imp,
+       ['bind', '', 'L', 'q', ['ref', 'G', True, '']]],
+      [imp, ['bind', '', 'L', 'p', i1], ['block', 's1', 'L', [['q', i2]]]],   # only below
+  ]
+  for k, stmts in enumerate(texts):
+    sel = ['late', 'lm.late'][k % 2]
+    for sk in ({'form': 'true'}, {'form': 'list', 'names': [sel]},
+               {'form': 'tuple', 'names': ['other', sel]}, {'form': 'set', 'names': [sel, 'zz']},
+               {'form': 'list', 'names': ['other', 'zz']}, {'form': 'false'}):
+      yield {'mode': 'static', 'fsel': 'f', 'late': {'sel': sel}, 'skip': sk, 'stmts': stmts}
+
+
+def _late_case(rng):
+  sel = rng.choice(['late', 'lm.late'])
+  case = {'mode': 'static', 'fsel': rng.choice(['f', 'm.f']), 'late': {'sel': sel}}
+  nm = _names(case)
+  form = rng.choice(['true', 'true', 'list', 'tuple', 'set', 'false'])
+  case['skip'] = {'form': form}
+  if form in ('list', 'tuple', 'set'):
+    case['skip']['names'] = sorted(
+        ([sel] if rng.random() < 0.8 else []) + rng.sample(['zz', 'm.yy', 'other'], rng.randint(0, 2)))
+    if not case['skip']['names']:
+      case['skip']['names'] = ['other']
+  listed = [s for s in ('Z', 'Y') if form == 'true' or nm[s] in case['skip'].get('names', [])]
+  with_ref = rng.random() < 0.4     # L is then bound unscoped only (see _Eval.value)
+  n = [10]
+
+  def on_late():
+    n[0] += 1
+    scope = '' if with_ref else rng.choice(SCOPES)
+    val = ['int', n[0]] if rng.random() < 0.8 else ['ref', 'G', True, '']
+    if rng.random() < 0.6:
+      return ['bind', scope, 'L', rng.choice('pq'), val]
+    return ['block', scope, 'L', [[a, ['int', n[0] + 20 * j]] for j, a in
+                                  enumerate(rng.sample('pq', rng.randint(1, 2)))]]
+
+  def other(after):
+    n[0] += 1
+    r = rng.random()
+    if r < 0.45:
+      v = ['ref', 'L', rng.random() < 0.6, ''] if after and with_ref and rng.random() < 0.7 else ['int', n[0]]
+      return ['bind', rng.choice(SCOPES), 'F', rng.choice('abc'), v]
+    if r < 0.6:
+      return ['bind', '', 'G', 'x', ['int', n[0]]]
+    if r < 0.85 or not listed:
+      return ['bind', rng.choice(SCOPES), rng.choice(listed or ['F']), 'q' if listed else 'a', ['int', n[0]]]
+    return ['import', rng.choice(['math', 'json'])]
+
+  def part(k_late, after):
+    sts = [on_late() for _ in range(k_late)] + [other(after) for _ in range(rng.randint(0, 2))]
+    rng.shuffle(sts)
+    return sts
+
+  imp = ['import', 'LATE'] + (['zq'] if rng.random() < 0.3 else [])
+  case['stmts'] = part(rng.randint(1, 2), False) + [imp] + part(rng.randint(1, 3), True)
+  return case
+
+
 def _all_values(st):
   top = [st[2]] if st[0] == 'macro' else [st[4]] if st[0] == 'bind' else (
       [v for _, v in st[3]] if st[0] == 'block' else [])
@@ -455,6 +591,9 @@ def cases(tier, rng):
   for stmts in fixed:
     for sk in skips:
       yield {'mode': 'static', 'fsel': 'f', 'skip': sk, 'stmts': stmts}
+  yield from _late_fixed()
+  for _ in range(150 if tier == 'quick' else 2500):
+    yield _late_case(rng)
   n_static, n_dyn = (700, 500) if tier == 'quick' else (12000, 9000)
   for _ in range(n_static):
     yield _rand_case(rng, 'static')
